@@ -79,7 +79,7 @@ def run(run):
         run.obligations_for(["Csvq.Props.C14"])
 
     before = len(run.problems)
-    run.stream("c14", 480 if q else 10000, timeout=1500)
+    run.stream("c14", 420 if q else 10000, timeout=1500)
     if not q:
         for k in range(1, 3):
             run.stream("c14", 10000, seed_offset=k, timeout=1500)
